@@ -281,6 +281,37 @@ def check(run):
                                   {"kind": "canon-random", "value_repr": f"{kind} nested {depth} deep, serialised {frames} frames below the caller",
                                    "got_head": got[:80].decode("ascii", "replace")})
     run.extra["deep_documents"] = {"calls": ndeep, "ended_in_RecursionError": nfail}
+    # what is VERIFIED is the bytes of the value that was given: documents whose numbers have two JSON spellings of one magnitude (2 / 2.0,
+    # 1000 / 1e3) are signed by an independent signer over the twin's bytes and handed to the verifiers; validators may refuse such a
+    # document as malformed, but if signatures are looked at they are looked at over those bytes, and the value still serialises to them
+    from .. import crypto, gamma, metadata
+    auth = lib.cct("authentication")
+    keys = gamma.Keys(2, run.seed, offset=9700)
+    nver = 0
+    for v_old, v_new in ((1, 2.0), (999, 1e3), (1, 2), (2 ** 53 - 1, float(2 ** 53)), (4, 5.0)):
+        for role_doc in ("root", "key_mgr"):
+            tdoc = metadata.delegating_doc("root", v_old, {"root": metadata.rule([keys.pub[1]], 1), "key_mgr": metadata.rule([keys.pub[2]], 1)}, rr)
+            if role_doc == "root":
+                ndoc = metadata.delegating_doc("root", v_new, {"root": metadata.rule([keys.pub[1]], 1), "key_mgr": metadata.rule([keys.pub[2]], 1)}, rr)
+            else:
+                ndoc = metadata.delegating_doc("key_mgr", v_new, {"pkg_mgr": metadata.rule([keys.pub[1]], 1)}, rr)
+            want = twin_canon(ndoc)
+            hdr = gamma.HEADERS[0]
+            if role_doc == "root":
+                env = {"signatures": {keys.pub[1]: {"other_headers": hdr.hex(), "signature": keys.sign(1, crypto.gpg_digest(want, hdr)).hex()}}, "signed": ndoc}
+                out, exc, _ = lib.call(auth.verify_root, {"signatures": {}, "signed": tdoc}, env)
+            else:
+                env = {"signatures": {keys.pub[2]: {"signature": keys.sign(2, want).hex()}}, "signed": ndoc}
+                out, exc, _ = lib.call(auth.verify_delegation, "key_mgr", env, {"signatures": {}, "signed": tdoc})
+            run.evaluations += 1
+            nver += 1
+            run._distinct.add(f"verified-bytes-{v_new!r}-{role_doc}")
+            if lib.family(out) not in ("accept", "TypeError", "ValueError"):
+                run.violation(f"a {role_doc} document signed over its canonical bytes is refused with {out}: other bytes than the value's were verified",
+                              {"kind": "canon-random", "value_repr": f"version {v_new!r} after {v_old!r}", "exc": exc})
+            if cs(env["signed"]) != want:
+                run.violation("verification changed the canonical bytes of the value it was given", {"kind": "canon-random", "value_repr": f"version {v_new!r}"})
+    run.extra["verified_bytes_cases"] = nver
     run.extra["random_values_beyond_bounded_domain"] = n
     run.assumptions.append("beyond the bounded domain of Canon.tla (all floats, arbitrary-size integers, all of Unicode) the claim is seeded random sampling against twin_canon, itself cross-checked against Canon.tla on the whole bounded domain in this run")
 
